@@ -51,7 +51,7 @@ iInv(g) == IF g.inv THEN -1 ELSE 1
 Mul(g, h) ==                                                 \* __mul__
    PointSymmetry(MatScale(MatMul(g.R, h.R), iInv(g) * iInv(h)),
                  IF Variant = "tr_or" THEN g.tr \/ h.tr ELSE g.tr # h.tr)
-Eq(g, h) == g.R = h.R /\ g.tr = h.tr /\ g.inv = h.inv        \* __eq__ (the float tolerance 1e-12 is exact equality here)
+Eq(g, h) == g = h       \* __eq__: R, TR and Inv equal (the float tolerance 1e-12 is exact equality here); one native comparison
 SymAsDict(g) == [R |-> MatScale(g.R, iInv(g)), TR |-> g.tr]  \* as_dict
 SymFromDict(d) == PointSymmetry(d.R, d.TR)                   \* PointSymmetry(**d)
 IsElement(g) == Det(g.R) = 1 /\ g.inv \in BOOLEAN /\ g.tr \in BOOLEAN
@@ -138,19 +138,19 @@ ForS2(L, i, j) ==                                                  \* for s2 in 
    IF j > Len(L) THEN L
    ELSE LET s3 == Mul(L[i], L[j]) IN ForS2(TLCEval(IF InList(s3, L) THEN L ELSE Append(L, s3)), i, j + 1)
 RECURSIVE ForS1(_, _)
-ForS1(L, i) == IF i > Len(L) THEN L ELSE ForS1(ForS2(L, i, 1), i + 1)   \* for s1 in sym_list
+ForS1(L, i) == IF i > Len(L) THEN L ELSE ForS1(TLCEval(ForS2(L, i, 1)), i + 1)   \* for s1 in sym_list
 ClosurePass(L) == ForS1(L, 1)                                      \* one body of `while True`
 RECURSIVE WhileTrue(_)
-WhileTrue(L) == LET L2 == ClosurePass(L) IN IF Len(L2) = Len(L) THEN L2 ELSE WhileTrue(L2)
+WhileTrue(L) == LET L2 == TLCEval(ClosurePass(L)) IN IF Len(L2) = Len(L) THEN L2 ELSE WhileTrue(L2)
 (* `for op in generator_list: if op not in sym_list: sym_list.append(op)`: a generator given twice is kept once (first
    occurrence).  Variant "keep_dups" = the behaviour before repair 36802561 (both copies kept): must-fail variant. *)
 RECURSIVE Dedup(_, _)
-Dedup(gens, acc) == IF gens = <<>> THEN acc ELSE Dedup(Tail(gens), IF InList(gens[1], acc) THEN acc ELSE Append(acc, gens[1]))
+Dedup(gens, acc) == IF gens = <<>> THEN acc ELSE Dedup(Tail(gens), TLCEval(IF InList(gens[1], acc) THEN acc ELSE Append(acc, gens[1])))
 InitialList(gens) == IF Len(gens) = 0 THEN <<Identity>> ELSE IF Variant = "keep_dups" THEN gens ELSE Dedup(gens, <<>>)
 Generate(gens) == WhileTrue(InitialList(gens))                     \* PointGroup(generator_list).symmetries
 (* as_dict() / PointGroup(dictionary=...) *)
-GroupAsDict(G) == [n \in 1..Len(G) |-> SymAsDict(G[n])]
-GroupFromDict(D) == Generate([n \in 1..Len(D) |-> SymFromDict(D[n])])
+GroupAsDict(G) == TLCEval([n \in 1..Len(G) |-> SymAsDict(G[n])])
+GroupFromDict(D) == Generate(TLCEval([n \in 1..Len(D) |-> SymFromDict(D[n])]))
 
 IndexOrZero(L, s) == IF InList(s, L) THEN CHOOSE k \in 1..Len(L) : Eq(L[k], s) ELSE 0
 MulTable(G) == [i \in 1..Len(G) |-> [j \in 1..Len(G) |-> IndexOrZero(G, Mul(G[i], G[j]))]]
@@ -175,7 +175,7 @@ RemoveAt(s, i) == TLCEval([k \in 1..(Len(s) - 1) |-> IF k < i THEN s[k] ELSE s[k
 RECURSIVE StarLoop(_, _, _)
 StarLoop(st, i, N) ==                                 \* for i in range(len(st) - 1, 0, -1)   (i is 1-based here)
    IF i < 2 THEN st
-   ELSE StarLoop(IF \E j \in 1..(i - 1) : EquivMod(st[j], st[i], N) THEN RemoveAt(st, i) ELSE st, i - 1, N)
+   ELSE StarLoop(TLCEval(IF \E j \in 1..(i - 1) : EquivMod(st[j], st[i], N) THEN RemoveAt(st, i) ELSE st), i - 1, N)
 Images(G, k, lat) == TLCEval([n \in 1..Len(G) |-> TransformReducedVector(G[n], k, lat)])
 Star(G, k, N, lat) == StarLoop(Images(G, k, lat), Len(G), N)
 ModEq(a, b, N) == \A i \in 1..3 : (a[i] - b[i]) % N = 0
